@@ -85,7 +85,8 @@ pub struct CaseIn {
 
 pub fn req_json(g: &Grammar, req: &Req) -> Value {
     json!({"entry": req.entry, "seed": req.seed, "enc": req.enc, "pmode": req.pmode, "amode": req.amode, "smode": req.smode,
-        "tokens": req.tokens.iter().map(|t| if *t == lab::ERROR_KIND { "Error".to_string() } else { g.tokens[*t].name.clone() }).collect::<Vec<_>>()})
+        "tokens": req.tokens.iter().map(|t| if *t == lab::ERROR_KIND { "Error".to_string() } else { g.tokens[*t].name.clone() }).collect::<Vec<_>>(),
+        "base": req.base.as_ref().map(|b| b.iter().map(|t| if *t == lab::ERROR_KIND { "Error".to_string() } else { g.tokens[*t].name.clone() }).collect::<Vec<_>>())})
 }
 
 pub fn req_from_json(g: &Grammar, v: &Value) -> Option<Req> {
@@ -94,7 +95,14 @@ pub fn req_from_json(g: &Grammar, v: &Value) -> Option<Req> {
         let name = t.as_str().unwrap_or("");
         if name == "Error" { Some(lab::ERROR_KIND) } else { g.tokens.iter().position(|x| x.name == name) }
     }).collect::<Option<Vec<_>>>()?;
-    Some(Req { gi: 0, entry: n("entry") as usize, seed: n("seed"), enc: n("enc") as u8, pmode: n("pmode") as u8, amode: n("amode") as u8, smode: n("smode") as u8, tokens })
+    let base = match v["base"].as_array() {
+        Some(a) => Some(a.iter().map(|t| {
+            let name = t.as_str().unwrap_or("");
+            if name == "Error" { Some(lab::ERROR_KIND) } else { g.tokens.iter().position(|x| x.name == name) }
+        }).collect::<Option<Vec<_>>>()?),
+        None => None,
+    };
+    Some(Req { gi: 0, entry: n("entry") as usize, seed: n("seed"), enc: n("enc") as u8, pmode: n("pmode") as u8, amode: n("amode") as u8, smode: n("smode") as u8, tokens, base })
 }
 
 /// Process one batch of cases: returns evidence and findings.
@@ -226,7 +234,7 @@ fn shrink_input(p: &dyn LabProp, g: &Grammar, text: &str, req: &Req, known: &dyn
     }
     let Some((mut sig, mut what)) = check(&best, &mut batch) else { return (best, String::new(), String::new()) };
     let mut chunk = (best.tokens.len() / 2).max(1);
-    while chunk >= 1 && !best.tokens.is_empty() {
+    while chunk >= 1 && !best.tokens.is_empty() && best.base.is_none() {
         let mut i = 0;
         let mut progressed = false;
         while i < best.tokens.len() {
